@@ -9,6 +9,8 @@ import (
 	"encoding/json"
 	"fmt"
 	"math/rand/v2"
+	"os"
+	"path/filepath"
 	"sort"
 	"strings"
 	"sync"
@@ -780,9 +782,19 @@ type pFaultPoint struct {
 
 // one history: three flushes that write a file each, an invalid batch in between, queries along the way
 func pFaultRun(p *pipeCtx, name string, hasAbort bool, faults []pFaultPoint, shape int) {
+	pFaultRunOn(p, name, hasAbort, faults, shape, false)
+}
+
+// onFS: FileSystemDataStore as DataStore and MetaStore (what a query sees is what the files themselves say)
+func pFaultRunOn(p *pipeCtx, name string, hasAbort bool, faults []pFaultPoint, shape int, onFS bool) {
 	o := defaultOpts()
 	o.HasAbort = hasAbort
 	o.Partitioned = true
+	if onFS {
+		o.FSDir = filepath.Join(p.c.Out, "pfs-"+name)
+		os.RemoveAll(o.FSDir)
+		defer os.RemoveAll(o.FSDir)
+	}
 	r := newPRun(p.c, name, o)
 	for _, f := range faults {
 		r.plan.fail(f.kind, f.nth)
@@ -816,7 +828,7 @@ func pFaultRun(p *pipeCtx, name string, hasAbort bool, faults []pFaultPoint, sha
 		p.c.dist("fault_kind", f.kind)
 	}
 	p.emit(r, res, pEvalOpts{props: []string{"C06"}, nontrivial: len(faults) > 0, kind: "fault-enum",
-		extra: map[string]any{"faults": fs, "has_abort": hasAbort, "shape": shape}})
+		extra: map[string]any{"faults": fs, "has_abort": hasAbort, "shape": shape, "fs_stores": onFS}})
 }
 
 func pFaultEnumeration(p *pipeCtx) {
@@ -836,6 +848,15 @@ func pFaultEnumeration(p *pipeCtx) {
 			continue // quick tier: two of every three later write positions
 		}
 		pFaultRun(p, fmt.Sprintf("fault-%s-%d", f.kind, f.nth), n%4 != 3, []pFaultPoint{f}, n)
+		n++
+	}
+	// the same single write faults with FileSystemDataStore as both stores: visibility then rests on what
+	// reached the file (a footer that was not written completely makes the file invisible)
+	for _, f := range singles {
+		if f.kind != "Write" || (!p.c.thorough() && f.nth%3 == 2 && f.nth > 9) {
+			continue
+		}
+		pFaultRunOn(p, fmt.Sprintf("fault-fs-%s-%d", f.kind, f.nth), true, []pFaultPoint{f}, n, true)
 		n++
 	}
 	// cleanup calls only happen after a first failure: pairs
